@@ -133,20 +133,20 @@ theorem addSub_type_bounds (bits : Nat) (l r : NumTy) (rt : DecTy) (h : addSubTy
     rw [h1.2, h2.2]
   · cases h
 
-/-- Rescaling to a larger scale is exact (multiplication by a power of ten). -/
+/-- Rescaling to a larger scale is exact (multiplication by a power of ten) and the result
+respects the target precision. -/
 theorem rescale_up_exact (src dst : DecTy) (v r : Int) (hs : src.scale < dst.scale)
-    (h : rescale src dst v = some r) : r = v * (10 ^ (dst.scale - src.scale).toNat : Nat) := by
-  simp only [rescale] at h
-  split at h
-  · cases h
-  · have hd : src.scale - dst.scale < 0 := by omega
-    simp only [hd, if_true] at h
-    split at h
-    · simp only [Option.some.injEq] at h
-      rw [← h]
-      have : (-(src.scale - dst.scale)) = dst.scale - src.scale := by omega
-      rw [this]
-    · cases h
+    (h : rescale src dst v = some r) :
+    r = v * (10 ^ (dst.scale - src.scale).toNat : Nat) ∧ validPrec r dst.prec = true := by
+  obtain ⟨hc, hp⟩ := rescale_some h
+  refine ⟨?_, hp⟩
+  have hd : src.scale - dst.scale < 0 := by omega
+  have e : (-(src.scale - dst.scale)) = dst.scale - src.scale := by omega
+  simp only [rescaleCore, hd, if_true, e] at hc
+  split at hc
+  · simp only [Option.some.injEq] at hc
+    exact hc.symm
+  · cases hc
 
 /-! Non-vacuity. -/
 example : natAdd ⟨64, true⟩ 9223372036854775806 1 = .val 9223372036854775807 := by decide
